@@ -25,6 +25,10 @@
 (*   LostKillAtExit  kill dropped at exit in those states or while the watcher sits in its previewCancelWait delay    *)
 (*   ExitBeforeKill  the process exits (EvtQuit is set BEFORE killPreview()) before the kill was attempted, or after  *)
 (*                   the watcher took it but before it got to call KillCommand (nothing waits for the watcher)        *)
+(*   StaleAfterShow  toggle-preview (show) enqueues from the action itself without telling the render loop which      *)
+(*                   focus it previewed; the render loop later finds "focus unchanged" (against what IT recorded      *)
+(*                   while the window was hidden) and does not refresh: move away, show, move back (found by TLC      *)
+(*                   with 4 user actions, reproduced on the real binary with `up+toggle-preview+down`)                *)
 (* The properties are proved on the behaviours in which no deviation fired (dev = {}); MC_Preview_dev.cfg checks the  *)
 (* strict versions and keeps TLC's counterexamples.                                                                   *)
 EXTENDS Integers, Sequences, FiniteSets, TLC
@@ -44,9 +48,9 @@ VARIABLES focus, q, sel, tver, visible, acts,     \* terminal state (t.cy's item
           cst, ckind, cout, rendered, fin,        \* command: none | running | exited | killed; output written; finishChan
           dbox, shown,                            \* reqBox[reqPreviewDisplay] (one slot) and what the preview window holds
           quitting, ctxDone, procExited,
-          alive, lastStarted, dev                 \* ghosts: versions whose process group is alive; request started last
+          alive, lastStarted, lastEnq, dev        \* ghosts: versions whose process group is alive; request started / announced last
 vars == <<focus, q, sel, tver, visible, acts, dirty, rfocus, rver, uipc, ureq, pbox, pquit, pst, pver, preq, wst, cst, ckind,
-          cout, rendered, fin, dbox, shown, quitting, ctxDone, procExited, alive, lastStarted, dev>>
+          cout, rendered, fin, dbox, shown, quitting, ctxDone, procExited, alive, lastStarted, lastEnq, dev>>
 
 uiVars   == <<focus, q, sel, tver, visible, acts>>
 rendVars == <<dirty, rfocus, rver>>
@@ -64,7 +68,7 @@ Init == /\ focus = 1 /\ q = 0 /\ sel = 0 /\ tver = 0 /\ visible = TRUE /\ acts =
         /\ cst = "none" /\ ckind = "finite" /\ cout = FALSE /\ rendered = FALSE /\ fin = FALSE
         /\ dbox = None /\ shown = None
         /\ quitting = FALSE /\ ctxDone = FALSE /\ procExited = FALSE
-        /\ alive = {} /\ lastStarted = None /\ dev = {}
+        /\ alive = {} /\ lastStarted = None /\ lastEnq = None /\ dev = {}
 
 -------------------------------------------------------------------------------
 (* The non-blocking send on the unbuffered killChan.  The receiving watcher goes on to call util.KillCommand        *)
@@ -86,24 +90,24 @@ TrySend(immediately) ==
 CanAct == uipc = "idle" /\ acts < MaxUI /\ ~quitting /\ ~procExited
 Move == /\ CanAct /\ focus' = 3 - focus /\ dirty' = TRUE /\ acts' = acts + 1
         /\ UNCHANGED <<q, sel, tver, visible, rfocus, rver, uipc, ureq, pbox, pquit, pvVars, wst, cmdVars, dbox, shown, endVars,
-                       alive, lastStarted, dev>>
+                       alive, lastStarted, lastEnq, dev>>
 EditQuery == /\ CanAct /\ q' = 1 - q /\ tver' = (IF TemplateHasQ THEN tver + 1 ELSE tver) /\ dirty' = TRUE /\ acts' = acts + 1
              /\ UNCHANGED <<focus, sel, visible, rfocus, rver, uipc, ureq, pbox, pquit, pvVars, wst, cmdVars, dbox, shown, endVars,
-                            alive, lastStarted, dev>>
+                            alive, lastStarted, lastEnq, dev>>
 Toggle == /\ CanAct /\ sel' = 1 - sel /\ tver' = tver + 1 /\ dirty' = TRUE /\ acts' = acts + 1
           /\ UNCHANGED <<focus, q, visible, rfocus, rver, uipc, ureq, pbox, pquit, pvVars, wst, cmdVars, dbox, shown, endVars,
-                         alive, lastStarted, dev>>
+                         alive, lastStarted, lastEnq, dev>>
 (* toggle-preview: hiding cancels the running command; showing cancels and enqueues from the action itself *)
 TogglePreview == /\ CanAct /\ visible' = ~visible /\ acts' = acts + 1
                  /\ TrySend(FALSE)
-                 /\ IF visible THEN UNCHANGED <<uipc, ureq>> ELSE (uipc' = "set" /\ ureq' = CurReq)
+                 /\ IF visible THEN UNCHANGED <<uipc, ureq, lastEnq>> ELSE (uipc' = "set" /\ ureq' = CurReq /\ lastEnq' = CurReq)
                  /\ UNCHANGED <<focus, q, sel, tver, rendVars, pbox, pquit, pvVars, ckind, cout, rendered, fin, dbox, shown, endVars,
                                 lastStarted>>
 (* any way of leaving (accept, abort, SIGTERM): exit() sets reqQuit on the previewBox, then EvtQuit is set *)
 Exit == /\ CanAct /\ acts' = acts + 1
         /\ pquit' = TRUE /\ quitting' = TRUE /\ uipc' = "quit2"
         /\ UNCHANGED <<focus, q, sel, tver, visible, rendVars, ureq, pbox, pvVars, wst, cmdVars, dbox, shown, ctxDone, procExited,
-                       alive, lastStarted, dev>>
+                       alive, lastStarted, lastEnq, dev>>
 
 -------------------------------------------------------------------------------
 (* Render loop *)
@@ -112,30 +116,31 @@ Render == /\ dirty /\ uipc = "idle" /\ ~quitting /\ ~procExited
           /\ IF focus # rfocus \/ tver # rver
              THEN /\ rfocus' = focus /\ rver' = tver
                   /\ IF visible                                      \* refreshPreview: canPreview()
-                     THEN TrySend(FALSE) /\ uipc' = "set" /\ ureq' = CurReq
-                     ELSE UNCHANGED <<wst, cst, alive, dev, uipc, ureq>>
-             ELSE UNCHANGED <<rfocus, rver, wst, cst, alive, dev, uipc, ureq>>
+                     THEN TrySend(FALSE) /\ uipc' = "set" /\ ureq' = CurReq /\ lastEnq' = CurReq
+                     ELSE UNCHANGED <<wst, cst, alive, dev, uipc, ureq, lastEnq>>
+             ELSE /\ UNCHANGED <<rfocus, rver, wst, cst, alive, uipc, ureq, lastEnq>>
+                  /\ dev' = dev \cup (IF visible /\ lastEnq # CurReq THEN {"StaleAfterShow"} ELSE {})
           /\ UNCHANGED <<uiVars, pbox, pquit, pvVars, ckind, cout, rendered, fin, dbox, shown, endVars, lastStarted>>
 RefreshSet == /\ uipc = "set" /\ ~procExited
               /\ pbox' = ureq /\ uipc' = "idle" /\ ureq' = None
-              /\ UNCHANGED <<uiVars, rendVars, pquit, pvVars, wst, cmdVars, dbox, shown, endVars, alive, lastStarted, dev>>
+              /\ UNCHANGED <<uiVars, rendVars, pquit, pvVars, wst, cmdVars, dbox, shown, endVars, alive, lastStarted, lastEnq, dev>>
 Display == /\ dbox # None /\ uipc = "idle" /\ ~quitting /\ ~procExited
            /\ shown' = dbox /\ dbox' = None
-           /\ UNCHANGED <<uiVars, rendVars, uipc, ureq, pbox, pquit, pvVars, wst, cmdVars, endVars, alive, lastStarted, dev>>
+           /\ UNCHANGED <<uiVars, rendVars, uipc, ureq, pbox, pquit, pvVars, wst, cmdVars, endVars, alive, lastStarted, lastEnq, dev>>
 
 ExitKill == /\ uipc = "quit2" /\ ~procExited
             /\ TrySend(TRUE) /\ uipc' = "quit3"
-            /\ UNCHANGED <<uiVars, rendVars, ureq, pbox, pquit, pvVars, ckind, cout, rendered, fin, dbox, shown, endVars, lastStarted>>
+            /\ UNCHANGED <<uiVars, rendVars, ureq, pbox, pquit, pvVars, ckind, cout, rendered, fin, dbox, shown, endVars, lastStarted, lastEnq>>
 ExitCtx == /\ uipc = "quit3" /\ ~procExited
            /\ ctxDone' = TRUE /\ uipc' = "quit4"
            /\ UNCHANGED <<uiVars, rendVars, ureq, pbox, pquit, pvVars, wst, cmdVars, dbox, shown, quitting, procExited, alive,
-                          lastStarted, dev>>
+                          lastStarted, lastEnq, dev>>
 ProcExit == /\ quitting /\ ~procExited
             /\ procExited' = TRUE
             /\ dev' = dev \cup (IF (uipc = "quit2" /\ (alive # {} \/ pst = "picked")) \/ (wst = "killing" /\ alive # {})
                                THEN {"ExitBeforeKill"} ELSE {})
             /\ UNCHANGED <<uiVars, rendVars, uipc, ureq, pbox, pquit, pvVars, wst, cmdVars, dbox, shown, quitting, ctxDone, alive,
-                           lastStarted>>
+                           lastStarted, lastEnq>>
 
 -------------------------------------------------------------------------------
 (* Previewer goroutine *)
@@ -145,48 +150,48 @@ Pick == /\ pst = "wait" /\ ~procExited /\ (pbox # None \/ pquit)
         /\ IF pquit THEN pst' = "stopped" /\ UNCHANGED <<pver, preq, pbox, dev>>
                     ELSE /\ pst' = "picked" /\ pver' = pver + 1 /\ preq' = pbox /\ pbox' = None
                          /\ dev' = dev \cup (IF uipc = "set" THEN {"LostCancel"} ELSE {})
-        /\ UNCHANGED <<uiVars, rendVars, uipc, ureq, pquit, wst, cmdVars, dbox, shown, endVars, alive, lastStarted>>
+        /\ UNCHANGED <<uiVars, rendVars, uipc, ureq, pquit, wst, cmdVars, dbox, shown, endVars, alive, lastStarted, lastEnq>>
 Start == /\ pst = "picked" /\ ~procExited
          /\ \E k \in Kinds : ckind' = k
          /\ pst' = "running" /\ cst' = "running" /\ cout' = FALSE /\ rendered' = FALSE /\ fin' = FALSE /\ wst' = "starting"
          /\ alive' = alive \cup {pver} /\ lastStarted' = preq
-         /\ UNCHANGED <<uiVars, rendVars, uipc, ureq, pbox, pquit, pver, preq, dbox, shown, endVars, dev>>
+         /\ UNCHANGED <<uiVars, rendVars, uipc, ureq, pbox, pquit, pver, preq, dbox, shown, endVars, lastEnq, dev>>
 (* EOF on the pipe (every process of the group is gone), cmd.Wait, the ticker's final display, finishChan <- true *)
 Eof == /\ pst = "running" /\ cst \in {"exited", "killed"} /\ ~procExited
        /\ dbox' = [ver |-> pver, req |-> preq, out |-> cout] /\ rendered' = TRUE /\ fin' = TRUE /\ pst' = "reaping"
        /\ UNCHANGED <<uiVars, rendVars, uipc, ureq, pbox, pquit, pver, preq, wst, cst, ckind, cout, shown, endVars, alive,
-                      lastStarted, dev>>
+                      lastStarted, lastEnq, dev>>
 Reaped == /\ pst = "reaping" /\ wst = "done" /\ ~procExited
           /\ pst' = "wait" /\ wst' = "none" /\ cst' = "none"
           /\ UNCHANGED <<uiVars, rendVars, uipc, ureq, pbox, pquit, pver, preq, ckind, cout, rendered, fin, dbox, shown, endVars,
-                         alive, lastStarted, dev>>
+                         alive, lastStarted, lastEnq, dev>>
 (* ticker goroutine: partial output of a running command is rendered (idempotent afterwards) *)
 TickDisplay == /\ pst = "running" /\ cst = "running" /\ cout /\ ~rendered /\ ~procExited
                /\ dbox' = [ver |-> pver, req |-> preq, out |-> TRUE] /\ rendered' = TRUE
                /\ UNCHANGED <<uiVars, rendVars, uipc, ureq, pbox, pquit, pvVars, wst, cst, ckind, cout, fin, shown, endVars, alive,
-                              lastStarted, dev>>
+                              lastStarted, lastEnq, dev>>
 
 (* Watcher goroutine *)
 WatchEnter == /\ wst = "starting" /\ ~procExited /\ wst' = "selecting"
-              /\ UNCHANGED <<uiVars, rendVars, uipc, ureq, pbox, pquit, pvVars, cmdVars, dbox, shown, endVars, alive, lastStarted, dev>>
+              /\ UNCHANGED <<uiVars, rendVars, uipc, ureq, pbox, pquit, pvVars, cmdVars, dbox, shown, endVars, alive, lastStarted, lastEnq, dev>>
 WatchFinish == /\ wst \in {"selecting", "delaying"} /\ fin /\ ~procExited /\ wst' = "done"
-               /\ UNCHANGED <<uiVars, rendVars, uipc, ureq, pbox, pquit, pvVars, cmdVars, dbox, shown, endVars, alive, lastStarted, dev>>
+               /\ UNCHANGED <<uiVars, rendVars, uipc, ureq, pbox, pquit, pvVars, cmdVars, dbox, shown, endVars, alive, lastStarted, lastEnq, dev>>
 WatchTimer == /\ wst = "delaying" /\ ~procExited /\ wst' = "killing"           \* previewCancelWait elapsed
-              /\ UNCHANGED <<uiVars, rendVars, uipc, ureq, pbox, pquit, pvVars, cmdVars, dbox, shown, endVars, alive, lastStarted, dev>>
+              /\ UNCHANGED <<uiVars, rendVars, uipc, ureq, pbox, pquit, pvVars, cmdVars, dbox, shown, endVars, alive, lastStarted, lastEnq, dev>>
 WatchKill == /\ wst = "killing" /\ ~procExited /\ Killed                       \* util.KillCommand
              /\ UNCHANGED <<uiVars, rendVars, uipc, ureq, pbox, pquit, pvVars, ckind, cout, rendered, fin, dbox, shown, endVars,
-                            lastStarted, dev>>
+                            lastStarted, lastEnq, dev>>
 WatchCtx == /\ wst = "selecting" /\ ctxDone /\ ~procExited /\ wst' = "done"       \* leaves without killing
-            /\ UNCHANGED <<uiVars, rendVars, uipc, ureq, pbox, pquit, pvVars, cmdVars, dbox, shown, endVars, alive, lastStarted, dev>>
+            /\ UNCHANGED <<uiVars, rendVars, uipc, ureq, pbox, pquit, pvVars, cmdVars, dbox, shown, endVars, alive, lastStarted, lastEnq, dev>>
 
 (* The command (keeps going after fzf is gone) *)
 CmdOutput == /\ cst = "running" /\ ~cout /\ cout' = TRUE
              /\ UNCHANGED <<uiVars, rendVars, uipc, ureq, pbox, pquit, pvVars, wst, cst, ckind, rendered, fin, dbox, shown, endVars,
-                            alive, lastStarted, dev>>
+                            alive, lastStarted, lastEnq, dev>>
 CmdExit == /\ cst = "running" /\ ckind = "finite" /\ cout
            /\ cst' = "exited" /\ alive' = {}
            /\ UNCHANGED <<uiVars, rendVars, uipc, ureq, pbox, pquit, pvVars, wst, ckind, cout, rendered, fin, dbox, shown, endVars,
-                          lastStarted, dev>>
+                          lastStarted, lastEnq, dev>>
 
 -------------------------------------------------------------------------------
 User == Move \/ EditQuery \/ Toggle \/ TogglePreview \/ Exit
@@ -201,7 +206,7 @@ TypeOK == /\ uipc \in {"idle", "set", "quit2", "quit3", "quit4"}
           /\ pst \in {"wait", "picked", "running", "reaping", "stopped"}
           /\ wst \in {"none", "starting", "selecting", "delaying", "killing", "done"}
           /\ cst \in {"none", "running", "exited", "killed"}
-          /\ dev \subseteq {"LostCancel", "LostKillAtExit", "ExitBeforeKill"}
+          /\ dev \subseteq {"LostCancel", "LostKillAtExit", "ExitBeforeKill", "StaleAfterShow"}
 (* superseded commands are terminated before the next one starts: at most one process group alive at any time *)
 OneAlive == Cardinality(alive) <= 1 /\ (alive # {} => alive = {pver} /\ cst = "running")
 (* the window never shows output of a command newer or other than one that was started; displays arrive in order *)
@@ -218,6 +223,7 @@ Convergence == (Quiescent /\ dev = {}) => CaughtUp
 ConvergenceStrict == Quiescent => CaughtUp                    \* violated: LostCancel (finding F6)
 (* the same with exactly one kind of deviation admitted: TLC's counterexamples show what each one leads to *)
 ConvergenceLostCancel == (Quiescent /\ ~procExited /\ dev \subseteq {"LostCancel"}) => CaughtUp      \* violated (F6, stale preview)
+ConvergenceStaleAfterShow == (Quiescent /\ ~procExited /\ dev \subseteq {"StaleAfterShow"}) => CaughtUp  \* violated (MaxUI >= 4)
 ExitClean == (procExited /\ dev = {}) => alive = {}
 ExitCleanLostKill == (procExited /\ dev \subseteq {"LostKillAtExit"}) => (alive = {} \/ ckind = "finite")   \* violated (F6, survivor)
 ExitCleanStrict == procExited => (alive = {} \/ ckind = "finite")     \* violated: LostKillAtExit / ExitBeforeKill (finding F6)
